@@ -71,7 +71,11 @@ Create(f, cwd, p, node, followLast) ==       \* mkdir / symlink / open(O_CREAT|O
   ELSE Out(Put(f, r.loc, node), "ok", r.loc)
 
 Mkdir(f, cwd, p, mode) == Create(f, cwd, p, DirNode(mode), FALSE)
-Symlink(f, cwd, p, tcomps, tabs) == Create(f, cwd, p, LinkNode(tcomps, tabs), FALSE)
+\* (a trailing '/' asks for a directory of that name: where there is none the kernel says ENOENT and creates nothing - unlike mkdir,
+\*  which accepts the trailing '/')
+Symlink(f, cwd, p, tcomps, tabs) ==
+  LET o == Create(f, cwd, p, LinkNode(tcomps, tabs), FALSE) IN
+  IF p.trail /\ o.res = "ok" THEN Out(f, "ENOENT", o.loc) ELSE o
 \* open(path, O_CREAT|O_WRONLY|O_EXCL, mode): never follows a link in the last component
 OpenExcl(f, cwd, p, mode) == Create(f, cwd, p, FileNode(mode), FALSE)
 
